@@ -451,6 +451,9 @@ pub fn check_ridge(cx: &Ctx, alpha_nominal: f64, normalize: bool) -> Observed {
         }
         if scale > 0.0 {
             calib(if normalize { "ridge.grad.on" } else { "ridge.grad.off" }, xi.w, worst.0 / (n * eps * scale), &|| format!("{} {} kappa_s={:.2e}", (cx.label)(), describe_fit(), xi.kappa_s));
+            if normalize && !large_mean {
+                calib("ridge.grad.on.mean<=64std", xi.w, worst.0 / (n * eps * scale), &|| format!("{} {} kappa_s={:.2e}", (cx.label)(), describe_fit(), xi.kappa_s));
+            }
             if normalize {
                 calib("ridge.grad.on/ks", xi.w, worst.0 / (n * eps * scale) / ks, &|| format!("{} {} kappa_s={:.2e}", (cx.label)(), describe_fit(), xi.kappa_s));
             }
